@@ -292,11 +292,14 @@ Scenario(f, L, nrx, v) ==
       tap(t, kk, base) == [d |-> base, v |-> TLCEval([a \in 1..nrx |-> GNonZero(GRnd(kk, 20 + 8 * a + 2 * t, -3, 3))])]
       ttaps == TLCEval([t \in 1..nt |-> tap(t, k, (d0 + (t - 1) * st) % (K + 1))])
       tcov  == IF f = "occ" THEN Cov2[1 + Pick(k, 9, 4)] ELSE <<>>
-      ni    == IF tight THEN 1 + Pick(k, 10, 3) ELSE Pick(k, 10, 4)
+      \* boundary scenarios: user 1 sits in the window just above the kept taps with a tap at its delay 0
+      \* (position K + 1), user 2 in the last window with a tap at its last delay (position L - 1)
+      ni    == IF tight THEN 2 + Pick(k, 10, 2) ELSE Pick(k, 10, 4)
       off   == IF tight THEN 0 ELSE Pick(k, 11, D - kw)
-      intf(q) == LET rel == kw + ((off + q - 1) % (D - kw))         \* window index of this user
+      intf(q) == LET rel == IF tight /\ q = 2 THEN D - 1
+                            ELSE kw + ((off + q - 1) % (D - kw))    \* window index of this user
                      nq  == 1 + Pick(k + q, 12, Min(2, W))
-                     q0  == IF tight /\ q = 1 THEN 0 ELSE Pick(k + q, 13, W)
+                     q0  == IF tight /\ q = 1 THEN 0 ELSE IF tight /\ q = 2 THEN W - 1 ELSE Pick(k + q, 13, W)
                  IN [cs |-> (ct - rel) % D, rel |-> rel,
                      cover |-> IF f = "occ" THEN Cov2[1 + Pick(k + q, 14, 4)] ELSE <<>>,
                      taps |-> TLCEval([t \in 1..nq |-> tap(t, k + 40 * q, (q0 + (t - 1)) % W)])]
